@@ -63,6 +63,8 @@ def translate():
     model_reserved = re.findall(r'B "([a-z0-9-]+)"', re.search(r"Definition reserved_id_names.*?\]\.", open(os.path.join(vlib.COQ, "C13/Model.v")).read(), re.S).group(0))
     if reserved != model_reserved:
         fails.append("state.rs: validate_sozu_id_header RESERVED list %r differs from the model's reserved_id_names %r" % (reserved, model_reserved))
+    if len(re.findall(r"validate_sozu_id_header\(v\)\?;", st)) < 4:
+        fails.append("state.rs: the add and update paths of the HTTP/HTTPS listeners no longer all call validate_sozu_id_header")
     if mv and "RESERVED.iter().any(|name| value.eq_ignore_ascii_case(name))" not in mv.group(0):
         fails.append("state.rs: validate_sozu_id_header no longer rejects the reserved names case-insensitively")
     h1 = open(os.path.join(vlib.REPO, "lib/src/protocol/mux/h1.rs")).read()
@@ -392,8 +394,8 @@ LEVEL_NOTE = ("Trusted: Coq kernel; extraction and ocaml/driver.ml for the corre
               "edits (HSTS) and per-frontend REQUEST policy (rewrite host/path, header inject/delete: router.rs "
               "apply_request_rewrites_and_headers) are modelled and tied through hooks. The theorems about the correlation "
               "header assume its name passes validate_sozu_id_header, which (fix in /repo) rejects the names the proxy owns "
-              "or interprets; the reserved list is compared with the source on every run. The validator is called on listener "
-              "updates only: AddHttpListener / AddHttpsListener do not call it. Black-box tiers: "
+              "or interprets; the reserved list is compared with the source on every run, and so is the fact that both the add "
+              "and the update paths of ConfigState call the validator (/repo aa7c657, 3983005). Black-box tiers: "
               "HTTP/1 and HTTP/2 (TLS) frontends of a real worker, HTTP/1.1 and h2c recording backends.")
 TECHNIQUE = "Rocq/Coq proof over an executable Gallina model + differential correspondence (extracted OCaml vs real crate)"
 CLAIMED = True
